@@ -119,6 +119,20 @@ CLAIMED = {
             'partial: the namespace / import wrapper and value rendering are covered by the search only; selection types, COMPONENTS OF '
             'and extension groups are outside the generator (two known findings)',
             'Coq proof (nested induction over the type) + differential correspondence on token sequences + independent TS shape parser'),
+    'C20': ('proof',
+            'Theorems over a model of compile() on the places it can touch (destination path, generated.<ext> inside a directory, a '
+            'bystander): a failed compilation writes and overwrites nothing in any mode and destination state; file mode delivers exactly '
+            'the text at the path or at generated.<ext> inside a directory and leaves everything else; an unwritable destination is Err '
+            'and changes nothing; stdout / no-output deliver the text / nothing; the CLI exits 0 exactly when it has modules and the '
+            'library returns Ok and picks up exactly *.asn / *.asn1; asn1! wraps snippets without BEGIN in the dummy module re-read from '
+            'the derive crate on every run. Tied by correspondence on real directories (10 destination states incl. chattr +i '
+            'write protection, whole-tree snapshots before/after, bytes compared with compile_to_string()) and real child processes of '
+            'rasn_compiler_cli',
+            '§6 C20',
+            'partial: the file system is abstracted to the places compile() touches; partial writes on a mid-write I/O error cannot be '
+            'provoked; the asn1! expansion itself is not executed (its wrapper is re-read from source)',
+            'Coq proof over an abstract destination model + regenerated macro wrapper + differential correspondence on real file '
+            'systems and child processes'),
     'C08': ('proof',
             'partial. Proved for every input: the nestable-comment scanner never slices out of range; the error-excerpt arithmetic '
             '(until_next_unindented, contextualize) stays in range and on character boundaries for every report the position '
